@@ -22,6 +22,10 @@ pub fn finding_open(id: &str) -> bool {
   // the known rendezvous finding is excluded by construction, exactly as in the check
   id == "F05-rendezvous-cancelled-fulfilled-recv-loses-value"
 }
+pub fn panic_prop(default: &'static str, covered: &[&'static str]) -> &'static str {
+  let cur = current_property();
+  covered.iter().copied().find(|c| *c == cur).unwrap_or(default)
+}
 pub fn panic_msg(p: &Box<dyn std::any::Any + Send>) -> String {
   if let Some(s) = p.downcast_ref::<&str>() {
     s.to_string()
@@ -43,7 +47,7 @@ pub fn decode(data: &[u8]) -> Option<e2::Scenario> {
   let cap = [1usize, 1, 2, 2, 3, 4, 16][u.int_in_range(0..=6usize).ok()?];
   let mut ops = Vec::new();
   while !u.is_empty() && ops.len() < 120 {
-    let tag = u.int_in_range(0..=27u8).ok()?;
+    let tag = u.int_in_range(0..=29u8).ok()?;
     let a: u16 = u.arbitrary().unwrap_or(0);
     let n: u16 = (u.arbitrary::<u8>().unwrap_or(0) % 10) as u16;
     ops.push(match tag {
@@ -74,6 +78,8 @@ pub fn decode(data: &[u8]) -> Option<e2::Scenario> {
       24 => Op::DropRx(a),
       25 => Op::CloneRx(a),
       26 => Op::ConvRx(a),
+      28 => Op::CloseTxInFlight(a),
+      29 => Op::CloseRxInFlight(a),
       _ => Op::Checkpoint,
     });
   }
